@@ -11,16 +11,27 @@ for d in sorted(os.listdir(root), key=lambda s: (re.sub(r'\d+$', '', s), int(re.
     rows.append((d, (m.get('summary') or '').replace('\n', ' ').replace('|', '/')[:170],
                  (m.get('needs') or '').replace('\n', ' ').replace('|', '/')[:150],
                  (m.get('detected_by') or '').replace('|', '/')))
+final = {}
+for fn in sorted(os.listdir(root)):
+    if fn.startswith('RESULTS') and fn.endswith('.md'):
+        for line in open(os.path.join(root, fn)):
+            c = [x.strip() for x in line.split('|')]
+            if len(c) > 4 and re.match(r'C\d\d-\d+$', c[1]):
+                final[c[1]] = 'exit %s %s' % (c[3], re.sub(r'\.\.\. \d+ violations in total, ', '', c[4])[:90])
+rows = [r + (final.get(r[0], '(not run)'),) for r in rows]
 refs = sorted(os.listdir(os.path.join(root, 'refactorings'))) if os.path.isdir(os.path.join(root, 'refactorings')) else []
 with open(os.path.join(root, 'INDEX.md'), 'w') as f:
     f.write('# Seeded changes\n\nEach directory holds `patch.diff`, `demo.py` (exits non-zero with the patch, 0 without; '
             '`SEED_ROOT=<checkout>`), `meta.json`.\nAll were produced by sub-agents that saw only the property text, and '
             'confirmed with `tools/confirm_seed.sh` (demo clean/patched, falcon\'s suite still green with the patch).\n'
-            'Re-run: apply in a scratch worktree and `FALCON_ROOT=<worktree> ./check <ID>` (or `tools/try_seeds.sh`).\n\n')
-    f.write('| seed | change | needs | detected by |\n|---|---|---|---|\n')
+            'Re-run: apply in a scratch worktree and `FALCON_ROOT=<worktree> ./check <ID>` (or `tools/try_seeds.sh`).\n'
+            'Demonstrations that locate the tree relative to their own path must be copied to `<worktree>/out/` first.\n'
+            'The last column is the final run of every seed against the final checks (`tools/run_all_seeds.sh`, '
+            '`RESULTS*.md`): exit 1 = reported.\n\n')
+    f.write('| seed | change | needs | detected by (when it arrived) | final run |\n|---|---|---|---|---|\n')
     for r in rows:
-        f.write('| %s | %s | %s | %s |\n' % r)
-    caught = sum(1 for r in rows if r[3] and not r[3].upper().startswith('MISSED') and not r[3].upper().startswith('NOT'))
+        f.write('| %s | %s | %s | %s | %s |\n' % r)
+    caught = sum(1 for r in rows if r[3] and not r[3].upper().startswith('MISSED') and not r[3].upper().startswith('NOT') and not r[3].upper().startswith('OUTSIDE'))
     missed_first = sum(1 for r in rows if r[3].upper().startswith('MISSED'))
     f.write('\n%d seeds; %d caught by the check as it was when the seed arrived, %d missed at first and caught after the '
             'check was extended from a description of the regression (never from the patch), %d judged outside the statement.\n'
